@@ -9,7 +9,7 @@ VERIF = gen.VERIF
 REPLAY = os.path.join(VERIF, 'replay')
 
 PROP_ORACLES = {
-    'C01': ['tree.memory', 'tree.altroot', 'tree.overlay', 'tree.physical', 'union.overlay', 'tree.stack'],
+    'C01': ['tree.memory', 'tree.altroot', 'tree.overlay', 'tree.physical', 'union.overlay', 'tree.stack', 'transfer', 'copydir'],
     'C03': ['tree.memory', 'tree.altroot', 'tree.overlay', 'union.overlay', 'tree.stack'],
     'C04': ['reader', 'writer', 'tree.memory', 'tree.physical', 'union.overlay', 'transfer', 'handles'],
     'C05': ['tree.memory', 'tree.altroot', 'tree.overlay', 'tree.physical', 'union.overlay', 'hostile.physical', 'walk.vanish'],
